@@ -44,7 +44,8 @@ RULE = (
     "Inductor, 1-3 DistributedRateLimiters on one KVStore, or a NullRateLimiter) plus an arrival program of 3-200 requests "
     "(segments: dense, sparse, burst at one instant, 0-2 ns adjacent, aligned to window boundaries -2..+2 ns, exactly one "
     "period apart +-1 ns, placed at now+time_until_available +-1 ns) delivered pre-run or by an in-run driver (early or late "
-    "event creation, which decides same-instant arrival/poll order), adaptive feedback sequence and delay; non-trivial = >= 3 "
+    "event creation, which decides same-instant arrival/poll order), adaptive feedback sequence and delay, daemon-flagged requests "
+    "(~40 % of runs) and sender-side cancellation of buffered requests (30-55 % of queueing runs); non-trivial = >= 3 "
     "requests delivered and at least one request was not forwarded at its arrival (queued, dropped or denied); distinct = "
     "distinct engine delivery digests"
 )
@@ -89,6 +90,12 @@ ASSUMPTIONS = [
     "a queue left non-empty when the event heap runs dry, more than 8 polls per queued request, or more than "
     "8n+300 deliveries at one instant count as a stalled drain",
     "simulated times stay below 2^53 ns (base offsets up to 10^6 s), where float seconds still resolve 1 ns",
+    "requests may carry daemon=True (background traffic): they are requests like any other and are counted against an "
+    "external ledger of what the harness sent; runs use an explicit end_time, so daemon events are delivered",
+    "a sender may retract (Event.cancel()) a request only while it is buffered inside the limiter; the statement says nothing "
+    "about retracted requests, so any of these outcomes is accepted for them: forwarded like any other (what HEAD does), "
+    "discarded at the head of the queue and counted as dropped, or forwarded and discarded by the engine downstream; "
+    "non-retracted requests keep exactly-once, arrival order and the no-stall requirement",
 ]
 EXPECTED_PROBES = [
     "probe.arrival_on_window_boundary", "probe.arrival_1ns_before_boundary", "probe.arrival_1ns_after_boundary",
@@ -102,6 +109,8 @@ EXPECTED_PROBES = [
     "probe.distributed_latency_forward_delivered", "probe.fixed_boundary_poll_drained",
     "probe.fixed_inexact_window_boundary_poll_drained", "probe.inductor_subns_interval_poll_drained",
     "probe.sliding_truncated_window_expiry_attempt", "probe.inductor_queued", "probe.large_base_offset",
+    "probe.daemon_request_delivered", "probe.daemon_request_queued", "probe.distributed_daemon_request",
+    "probe.buffered_request_cancelled", "probe.cancelled_request_forwarded_by_poll", "probe.cancelled_head_with_backlog",
 ]
 SHRINK_SKIP = ("kind", "type", "mode")
 
@@ -181,7 +190,42 @@ def _gen_policy(rng, ptype, avoid):
             "step": rng.choice([None, None, 0.5, 1.0, 3.0, mx]), "factor": rng.choice([0.5, 0.9, 0.1, 0.7])}
 
 
+def _decorate(rng, sc, period):
+    """Daemon-flagged requests (background traffic is a request like any other) in ~40 % of the runs, and sender-side
+    retraction (Event.cancel()) of requests while they are buffered in ~30 % of the queueing runs."""
+    ops = sc["ops"]
+    r = rng.random()
+    if r < 0.4:
+        p = 1.0 if r < 0.08 else rng.choice([0.1, 0.3, 0.6])
+        for o in ops:
+            if rng.random() < p:
+                o["d"] = 1
+    if sc["kind"] in ("entity", "inductor") and sc.get("queue_cap") != 0 and rng.random() < (0.55 if sc["kind"] == "inductor" else 0.3):
+        k = rng.choice([1, 1, 2, 4, 8])
+        n = len(ops)
+        # mostly near the end of the program: a retracted request with live ones behind it and no later arrival to
+        # re-arm the drain is the interesting case
+        pick = lambda: rng.randrange(n - max(1, n * 2 // 5), n) if rng.random() < 0.7 else rng.randrange(n)  # noqa: E731
+        sc["cancels"] = [{"rid": pick(), "dt": rng.choice([0, 0, 1, period // 2, period, 3 * period, 10 * period])}
+                         for _ in range(k)]
+        if rng.random() < 0.5:      # end the program with a burst at one instant, so that a backlog exists at the end
+            for o in ops[-rng.randint(2, min(8, n)):]:
+                if o is not ops[0]:
+                    o["k"], o["v"] = "g", 0
+    return sc
+
+
 def gen(rng, tier):
+    sc = _gen(rng, tier)
+    per = 1_000_000
+    if sc["kind"] == "entity":
+        per = M.build_policy(sc["policy"])[1]["period_ns"]
+    elif sc["kind"] == "inductor":
+        per = max(1_000, sum(o["v"] for o in sc["ops"] if o["k"] == "g") // max(1, len(sc["ops"])))
+    return _decorate(rng, sc, per)
+
+
+def _gen(rng, tier):
     r = rng.random()
     seed = rng.getrandbits(48)
     n = _gen_n(rng, tier)
@@ -352,6 +396,15 @@ class _QueueingRun:
         self.sink_log = []                    # (time, rid)
         self.sink_seen = set()
         self.dropped = []
+        self.req_events = {}
+        self.cancelled = set()                # rids retracted by the sender while buffered
+        self.engine_discarded = []            # cancelled requests the limiter forwarded as the (cancelled) event itself
+        self.cancel_plan = {}
+        for c in sc.get("cancels", []) if self.kind in ("entity", "inductor") else []:
+            rid, dt = c.get("rid"), c.get("dt", 0)
+            if not isinstance(rid, int) or not isinstance(dt, int) or dt < 0 or not 0 <= rid < self.n:
+                raise InvalidScenario("cancels")
+            self.cancel_plan.setdefault(rid, []).append(dt)
         self.last_fwd_index = -1
         self.last_fwd_path = None
         self.last_fwd_rid = None
@@ -370,7 +423,14 @@ class _QueueingRun:
 
     # ---- driver -----------------------------------------------------------
     def _arrival(self, k, t):
-        return Event(time=Instant(t), event_type="req", target=self.lim, context={"rid": k})
+        """The request event (daemon-flagged when the op says so: background traffic is a request like any other)
+        followed by the sender's retraction events for it, if any."""
+        ev = Event(time=Instant(t), event_type="req", target=self.lim, daemon=bool(self.ops[k].get("d")), context={"rid": k})
+        self.req_events[k] = ev
+        out = [ev]
+        for dt in self.cancel_plan.get(k, ()):
+            out.append(Event(time=Instant(t + dt), event_type="cancel", target=self.driver, context={"k": k}))
+        return out
 
     def _tick(self, k, t, typ="tick"):
         return Event(time=Instant(t), event_type=typ, target=self.driver, context={"k": k})
@@ -380,25 +440,35 @@ class _QueueingRun:
             evs, prev = [], self.base
             for k in range(self.n):
                 prev = _op_time(self.ops[k], prev, self.win, None, False)
-                evs.append(self._arrival(k, prev))
+                evs.extend(self._arrival(k, prev))
             return evs
         t0 = _op_time(self.ops[0], self.base, self.win, None, False)
         if self.mode == "chain":
-            return [self._arrival(0, t0), self._tick(0, t0)]
+            a = self._arrival(0, t0)
+            return a[:1] + [self._tick(0, t0)] + a[1:]
         return [self._tick(0, t0)]
 
     def on_driver(self, ev):
         k = ev.context["k"]
         now = ev.time.nanoseconds
+        if ev.event_type == "cancel":
+            # the sender retracts request k - only while it is buffered inside the limiter (public Event.cancel())
+            if k in self.refq and k not in self.cancelled:
+                self.req_events[k].cancel()
+                self.cancelled.add(k)
+                self.flags["cancelled_buffered"] = 1
+            return None
         if self.mode == "chain":
             if k + 1 >= self.n:
                 return None
             t = _op_time(self.ops[k + 1], now, self.win, self.policy, True)
-            return [self._arrival(k + 1, t), self._tick(k + 1, t)]
+            a = self._arrival(k + 1, t)
+            return a[:1] + [self._tick(k + 1, t)] + a[1:]
         if ev.event_type == "tick":
             if self.probe is not None:      # state just before the arrival at this very instant
                 self.probe.check(self.policy, ev.time, "just before an arrival")
-            return [self._arrival(k, now), self._tick(k, now, "tock")]
+            a = self._arrival(k, now)
+            return a[:1] + [self._tick(k, now, "tock")] + a[1:]
         if k + 1 >= self.n:
             return None
         t = _op_time(self.ops[k + 1], now, self.win, self.policy, True)
@@ -421,6 +491,8 @@ class _QueueingRun:
         if not self.pending:
             raise Violation(f"C10/forward-without-accounting/{self.ecls}/sink",
                             f"downstream received request {rid} at t={now}ns but the limiter's forwarded counter did not move")
+        while self.pending[0][1] != rid and self.pending[0][1] in self.cancelled and len(self.pending) > 1:
+            self.engine_discarded.append(self.pending.popleft()[1])     # acceptable: a retracted request died downstream
         t_dec, rid_exp, path = self.pending.popleft()
         if t_dec != now:
             raise Violation(f"C10/forward-wrong-time/{self.ecls}/{path}",
@@ -477,6 +549,8 @@ class _QueueingRun:
 
     def _on_null(self, ev, t):
         rid = ev.context.get("rid")
+        if ev.daemon:
+            self.flags["daemon_req"] = 1
         self.arr_index[rid] = len(self.arrived)
         self.arrived.append(rid)
         self.pending.append((t, rid, "arrival"))
@@ -503,7 +577,12 @@ class _QueueingRun:
             if d == (0, 1, 0, 0) and dd == -1:
                 if not self.refq:
                     raise Violation(f"C10/accounting/{e}/poll-forward-from-empty-queue", f"poll at t={t}ns forwarded with an empty queue")
-                self.pending.append((t, self.refq.popleft(), "poll"))
+                head = self.refq.popleft()
+                self.pending.append((t, head, "poll"))
+                if head in self.cancelled:
+                    self.flags["cancelled_forwarded"] = 1
+                    if self.refq:
+                        self.flags["cancelled_head_with_backlog"] = 1
                 self.denied_at = (-1, 0)
                 self.poll_fwd_at[t] += 1
                 if self.info is not None and self.info["type"] == "fixed" and t % self.win == 0:
@@ -523,6 +602,23 @@ class _QueueingRun:
                             f"C10/frozen-clock-spin/{self.cname}/poll-rearmed-at-now",
                             f"{self.denied_at[1]} consecutive polls were denied at t={t}ns with {depth} requests queued: "
                             f"each denied poll re-arms itself at now+0, the clock never advances")
+            elif (self.cancelled and d[0] == 0 and d[2] == 0 and d[3] >= 1 and d[1] in (0, 1) and dd == -(d[1] + d[3])
+                  and len(self.refq) >= -dd):
+                # acceptable alternative for retracted requests: the limiter discards them at the head and counts a drop
+                drops, fwd = d[3], d[1]
+                for _ in range(-dd):
+                    head = self.refq.popleft()
+                    if head in self.cancelled and drops:
+                        drops -= 1
+                        self.dropped.append(head)
+                        self.flags["cancelled_dropped_by_limiter"] = 1
+                    elif fwd:
+                        fwd -= 1
+                        self.pending.append((t, head, "poll"))
+                    else:
+                        raise Violation(f"C10/accounting/{e}/poll-dropped-live-request",
+                                        f"poll at t={t}ns dropped request {head}, which was not retracted by its sender")
+                self.denied_at = (-1, 0)
             else:
                 raise Violation(f"C10/accounting/{e}/poll-delta",
                                 f"poll at t={t}ns changed (received, forwarded, queued, dropped, depth) by {d + (dd,)}")
@@ -538,8 +634,12 @@ class _QueueingRun:
             self.arr_index[rid] = len(self.arrived)
             self.arrived.append(rid)
             self._arrival_probes(t)
+            if ev.daemon:
+                self.flags["daemon_req"] = 1
             if d[0] != 1:
-                raise Violation(f"C10/accounting/{e}/received-delta", f"arrival at t={t}ns changed received by {d[0]}")
+                kind = "daemon-request" if ev.daemon else "received-delta"
+                raise Violation(f"C10/accounting/{e}/{kind}",
+                                f"request {rid} (daemon={ev.daemon}) delivered at t={t}ns changed the received counter by {d[0]}")
             if self.refq:
                 self.flags["arr_nonempty"] = 1
             if d == (1, 1, 0, 0) and dd == 0:
@@ -548,6 +648,8 @@ class _QueueingRun:
                 self.refq.append(rid)
                 self.n_queued += 1
                 self.flags["queued"] = 1
+                if ev.daemon:
+                    self.flags["daemon_queued"] = 1
             elif d == (1, 0, 0, 1) and dd == 0:
                 if depth < self.cap:
                     raise Violation(f"C10/dropped-with-room/{e}/arrival",
@@ -593,23 +695,31 @@ class _QueueingRun:
     # ---- end of run -------------------------------------------------------
     def final(self, status):
         e = self.ecls
+        while self.pending and self.pending[0][1] in self.cancelled:
+            self.engine_discarded.append(self.pending.popleft()[1])      # retracted request died downstream: acceptable
         if self.pending:
             t_dec, rid, path = self.pending[0]
             return (f"C10/forwarded-not-delivered/{e}/{path}",
                     f"request {rid} counted as forwarded at t={t_dec}ns never reached the downstream")
+        if status == "ok" and len(self.arrived) != self.n:
+            return (f"C10/conservation/{e}/sent-not-delivered",
+                    f"the harness sent {self.n} requests, only {len(self.arrived)} were delivered to the limiter")
         if self.kind != "null":
             st = self.lim.stats
             depth = self.lim.queue_depth
+            if status == "ok" and st.received != self.n:
+                return (f"C10/conservation/{e}/sent-vs-received",
+                        f"{self.n} requests were sent to the limiter (external ledger) but its received counter is {st.received}")
             if st.received != len(self.arrived):
                 return (f"C10/conservation/{e}/received", f"received={st.received} but {len(self.arrived)} requests were delivered")
             if st.received != st.forwarded + depth + st.dropped:
                 return (f"C10/conservation/{e}/sum",
                         f"received={st.received} != forwarded={st.forwarded} + queued-now={depth} + dropped={st.dropped}")
-            if st.forwarded != len(self.sink_log):
+            if st.forwarded != len(self.sink_log) + len(self.engine_discarded):
                 return (f"C10/conservation/{e}/forwarded-counter", f"forwarded={st.forwarded} but the sink saw {len(self.sink_log)}")
-            if [x.nanoseconds for x in self.lim.forwarded_times] != [x[0] for x in self.sink_log]:
+            if not self.engine_discarded and [x.nanoseconds for x in self.lim.forwarded_times] != [x[0] for x in self.sink_log]:
                 return (f"C10/conservation/{e}/forwarded-times", "forwarded_times differ from the instants the downstream saw")
-            accounted = len(self.sink_seen) + len(self.dropped) + len(self.refq)
+            accounted = len(self.sink_seen) + len(self.dropped) + len(self.refq) + len(self.engine_discarded)
             if accounted != len(self.arrived) or (self.sink_seen & set(self.dropped)):
                 return (f"C10/conservation/{e}/each-id-once", "a request is in none or in two of forwarded / queued / dropped")
             if status == "ok" and depth > 0:
@@ -680,6 +790,12 @@ def _run_queueing(sc):
         "probe.fixed_inexact_window_boundary_poll_drained": fl["fixed_inexact_boundary_drain"],
         "probe.inductor_subns_interval_poll_drained": fl["inductor_subns_drain"],
         "probe.sliding_truncated_window_expiry_attempt": fl["trunc_expiry_attempt"],
+        "probe.daemon_request_delivered": fl["daemon_req"], "probe.daemon_request_queued": fl["daemon_queued"],
+        "probe.buffered_request_cancelled": fl["cancelled_buffered"],
+        "probe.cancelled_request_forwarded_by_poll": fl["cancelled_forwarded"],
+        "probe.cancelled_head_with_backlog": fl["cancelled_head_with_backlog"],
+        "probe.cancelled_request_dropped_by_limiter": fl["cancelled_dropped_by_limiter"],
+        "probe.cancelled_request_discarded_by_engine": int(bool(h.engine_discarded)),
         "checks.tua_zero": pr.n_zero if pr else 0, "checks.tua_positive": pr.n_pos if pr else 0,
         "checks.tua_no_acquire_samples": pr.samples if pr else 0,
         "requests.delivered": len(h.arrived), "requests.forwarded": len(h.sink_log), "requests.dropped": len(h.dropped),
@@ -746,7 +862,8 @@ class _DistRun:
             to = op.get("to", 0)
             if not isinstance(to, int) or not 0 <= to < len(self.lims):
                 raise InvalidScenario("to")
-            evs.append(Event(time=Instant(prev), event_type="req", target=self.lims[to], context={"rid": rid, "to": to}))
+            evs.append(Event(time=Instant(prev), event_type="req", target=self.lims[to], daemon=bool(op.get("d")),
+                             context={"rid": rid, "to": to}))
         return evs
 
     def on_sink(self, sink, ev):
@@ -787,6 +904,8 @@ class _DistRun:
         if first:
             rid = ev.context.get("rid")
             self.arrived[rid] = (i, t)
+            if ev.daemon:
+                self.flags["daemon_req"] = 1
             if d[0] != 1:
                 raise Violation("C10/accounting/DistributedRateLimiter/received-delta", f"arrival {rid} changed received by {d[0]}")
             if self.open > 0:
@@ -821,6 +940,9 @@ class _DistRun:
                         f"at quiescence")
         if tot_r != len(self.arrived):
             return ("C10/conservation/DistributedRateLimiter/received", f"received={tot_r}, delivered={len(self.arrived)}")
+        if status == "ok" and tot_r != len(self.ops):
+            return ("C10/conservation/DistributedRateLimiter/sent-vs-received",
+                    f"{len(self.ops)} requests were sent (external ledger) but the received counters add up to {tot_r}")
         if status == "ok" and tot_f != len(self.sink_log):
             lat = "store-latency" if (self.sc.get("read_lat", 0) or self.sc.get("write_lat", 0)) else "zero-latency"
             return (f"C10/forwarded-not-delivered/DistributedRateLimiter/{lat}",
@@ -866,7 +988,7 @@ def _run_distributed(sc):
                 "probe.distributed_sequential_bound_checked": h.flags["sequential_bound_checked"],
                 "probe.distributed_sequential_bound_checked_with_latency": h.flags["sequential_bound_checked_latency"],
                 "probe.distributed_latency_forward_delivered": h.flags["delivered_after_round_trip"],
-                "probe.large_base_offset": int(h.base >= 1000 * NS),
+                "probe.large_base_offset": int(h.base >= 1000 * NS), "probe.distributed_daemon_request": h.flags["daemon_req"],
                 "requests.delivered": len(h.arrived), "requests.forwarded": len(h.sink_log)}
     if sig:
         counters[f"violating_runs.{klass}"] = 1
